@@ -18,7 +18,8 @@ prop(
     "loss schedules and the ProtocolViolation close on the wire belong to the whole-stack (L2) leg. Trusted: the 30-line packet target and the FIFO model.",
     design_ref="DESIGN.md §3 C19",
     legs=[dict(name="datagram", crate="l1rec", sub="c19", shards={Q: 8, T: 16}, budget={Q: 8000, T: 150000}, timeout=1500),
-          dict(name="l2", crate="l2", sub="c19", shards={Q: 8, T: 16}, budget={Q: 12, T: 150}, timeout={Q: 900, T: 7200})],
+          dict(name="l2", crate="l2", sub="c19", shards={Q: 8, T: 16}, budget={Q: 12, T: 150}, timeout={Q: 900, T: 7200}),
+          dict(name="asan", kind="asan", crate="l2", sub="c19", tiers=(T,), budget={T: 12}, timeout=5400, mandatory=False)],
     floors={
         Q: {
             "sweep_cases": 5000,
